@@ -417,6 +417,15 @@ func c09JudgeSample(w *mon.W, c c09Case) {
 	w.HitIf(n >= 1 && d.NonPos && !c.HasW, "geomean-nonpositive")
 	w.HitIf(n >= 1 && d.NonPos && !c.HasW && axs[0] == 0, "geomean-zero-is-the-minimum")
 	w.HitIf(n >= 1 && !d.NonPos, "geomean-positive")
+	nonPosZeroW := false
+	if c.HasW && !d.NonPos && d.W > 0 {
+		for k := range axs {
+			if axs[k] <= 0 {
+				nonPosZeroW = true
+			}
+		}
+	}
+	w.HitIf(nonPosZeroW, "geomean-nonpositive-values-only-at-zero-weight")
 	if c.HasW {
 		if d.IntW {
 			w.Hit("int-weights")
@@ -1152,7 +1161,30 @@ func c09GenSample(rng *mon.Rand, i int) c09Case {
 	c := c09Case{Kind: "sample", Xs: mon.Fs(xs), Seed: rng.Uint64(), NPerm: 4}
 	if wmode >= 4 {
 		c.HasW = true
-		c.Ws = mon.Fs(c09Weights(rng, wmode-4, xs))
+		ws := c09Weights(rng, wmode-4, xs)
+		if i%5 == 3 {
+			// zero-weight values are not part of the sample: make them
+			// non-positive (and make sure there are some) so that a GeoMean
+			// that looks at them instead of ignoring them is visible
+			allPos := true
+			for k := range xs {
+				if xs[k] <= 0 && ws[k] != 0 {
+					allPos = false
+				}
+			}
+			if allPos && len(xs) >= 2 {
+				for k := range xs {
+					if rng.Intn(3) == 0 && k > 0 {
+						ws[k] = 0
+					}
+					if ws[k] == 0 {
+						xs[k] = rng.Pick(0, math.Copysign(0, -1), -math.Abs(xs[k]), -1)
+					}
+				}
+				c.Xs = mon.Fs(xs)
+			}
+		}
+		c.Ws = mon.Fs(ws)
 	}
 	return c
 }
@@ -1281,10 +1313,10 @@ func c09Run(r *mon.Run) {
 	r.Rule("samples: n=0..200 values of 12 shapes (offset/spread up to 1e9, ties, constant, outlier, cancelling pairs, 120 decades of magnitude, integers with signed zeros), unweighted / integer weights 0..5 (also 0..12, all-zero, all-one, single) / real weights in [0.25,8]; every sample is queried (Sum, Weight, Mean, Bounds, GeoMean, Variance, StdDev on the Sample; Mean, GeoMean, Variance, StdDev, Bounds, vec.Sum on the slice) in 8 orders: as given, ascending, ascending with Sorted=true, descending, 4 random permutations; integer-weighted samples also as the sample with each value repeated weight times. histories: up to 12 operations of {Sort, Copy, query, write x, write w, set Sorted on ascending data} over the objects created so far, against the pair-multiset model. vec: Sum, Linspace (num 0..1000, offsets, descending), Logspace, Map/Vectorize (8 functions), Concat (nil, empty, aliased arguments, canaries in spare capacity). A case is non-trivial if it hits any class; distinct by hash of the whole case.")
 	r.Assume("reference: 384-bit big.Float arithmetic on the exact binary values, cross-checked at start-up against big.Rat, text-book values and gonum/stat",
 		"tolerances: 16*nops*eps*kappa*scale from the conditioning of the problem (see the head of props/c09.go); Bounds, Sort, Copy, Map, Concat exact",
-		"weighted Variance/StdDev (documented as unimplemented) and weighted GeoMean of samples containing non-positive values (excluded by the doc comment) are not called",
+		"weighted Variance/StdDev (documented as unimplemented) and weighted GeoMean of samples with a non-positive value of non-zero weight are not called; zero-weight values are not part of the sample (the statement's repeated-sample law), whatever their sign",
 		"n<2: Variance/StdDev may be 0 or NaN; empty or zero-total-weight data: Mean, GeoMean and Bounds are NaN, Sum and Weight are 0",
 		"weights are integers 0..12 or reals in {0} u [0.25,8]; |x| within 1e-60..1e60; offset/spread <= 1e9")
-	r.Gate("n=0", "n=1", "offset/spread>=1e8", "zero-weight-prefix", "zero-weight-suffix", "zero-weight-first", "all-zero-weights",
+	r.Gate("geomean-nonpositive-values-only-at-zero-weight", "n=0", "n=1", "offset/spread>=1e8", "zero-weight-prefix", "zero-weight-suffix", "zero-weight-first", "all-zero-weights",
 		"weighted-sort-ties", "ties", "constant-data", "int-weights", "real-weights", "unweighted",
 		"geomean-nonpositive", "geomean-zero-is-the-minimum", "geomean-positive", "hist-n=0", "hist-mutate-after-copy", "hist-sort-unweighted",
 		"hist-sorted-bounds-zero-weight-end",
